@@ -149,6 +149,12 @@ CLAIMED["C20"] = {
     "technique": "property-based testing with spying block functions: invariant over logged invocations + NumPy reference",
 }
 
+CLAIMED["C23"] = {
+    "text": "Hypothesis-generated seeded random arrays (every generator kind and distribution the API offers, incl. array-valued parameters, draw positions 0-2) with derived programs (slices, rechunks, transposes, r-r, self combinations, where, reductions, concatenations, fused consumers, cloudpickle round trips, persist), compute orders, gc and both optimize-graph settings: the first computed realisation R must be reproduced bitwise by every recompute, in-process rebuild and fresh-interpreter rebuild (other PYTHONHASHSEED), every derived program in every optimisation form must equal its NumPy twin applied to R, equal names must imply equal values and consecutive draws must differ. " + EXPL,
+    "note": "Metamorphic oracle (no comparison with NumPy's own RNG streams); harness-side counters detect re-instantiated Random nodes and fusion with consumers; five listed open findings (array-valued parameters, draw aliasing in parent tokens, choice instability, generic array operands, choice meta rank) are matched at failure time by bucket and predicate.",
+    "technique": "property-based testing: metamorphic relation against the first realisation + differential across processes",
+}
+
 NOT_APPLICABLE = {
     "C22": "native Rust extension cannot be built offline (pyo3 0.29 and other crates are absent from the offline cargo registry; no prebuilt .so), so no native layer can be instantiated to generate inputs against; see DESIGN.md section 4 C22",
 }
